@@ -378,9 +378,9 @@ NSHARDS = 16
 def shards(tier, seed):
     bound, tb = (4, 3) if tier == "quick" else (5, 4)
     out = [{"name": f"one{i}", "kind": "one", "i": i, "bound": bound, "typed_bound": tb,
-            "budget_s": 200 if tier == "quick" else 3000} for i in range(NSHARDS)]
+            "budget_s": 600 if tier == "quick" else 3000} for i in range(NSHARDS)]
     out += [{"name": f"two{i}", "kind": "two", "i": i, "bound": 4 if tier == "quick" else 5, "typed_bound": 3 if tier == "quick" else 4,
-             "budget_s": 200 if tier == "quick" else 3000} for i in range(NSHARDS)]
+             "budget_s": 900 if tier == "quick" else 5000} for i in range(NSHARDS)]
     out += [{"name": f"hist{i}", "kind": "hist", "i": i, "count": 150 if tier == "quick" else 6000,
              "budget_s": 100 if tier == "quick" else 1500} for i in range(NSHARDS)]
     return out
